@@ -341,9 +341,9 @@ impl Scenario for C05 {
 fn main() {
     main_for(|tier| {
         let thorough = tier == "thorough";
-        let mut o = Opts::new(tier, if thorough { 7 } else { 4 });
+        let mut o = Opts::new(tier, if thorough { 9 } else { 4 });
         o.min_depth = 3;
-        o.wall_cap_s = if thorough { 2400.0 } else { 100.0 };
+        o.wall_cap_s = if thorough { 600.0 } else { 100.0 };
         o.rule = "two base states (nothing deployed; T1 deployed + T2 registered); all sequences over deploy, register canonical, set/remove trusted chain, outbound interchain_transfer (token T1 / T2 / unknown id; sender U1 / U2; amount -1, 0, 1, balance, balance+1; trusted / untrusted destination; with / without data; gas 1 / unaffordable / 0 / negative, paid in the gas token or in the transferred token itself or the other ITS token; authorised by the sender or by the other user) and approved inbound transfers (token T1 / T2; to a user or with data to an app; amount 1, custody, custody+1; bounded count). After every new state every balance of T1, T2 and the gas token for U1, U2, app, ITS, gas service, custody == locked - released >= 0 and supply(T1) == 20 + minted - burned are compared; every successful outbound call's three events and payload are compared with the independent ABI encoding and keccak".into();
         (C05 { thorough }, o)
     });
